@@ -243,3 +243,134 @@ Section Transport4.
     exact (inverse_tolocal R rO inv data n0 n1 L Hm E Hinv).
   Qed.
 End Transport4.
+
+(* ---------- Form.block ---------- *)
+Require Import Model.C19_FormBlock Proofs.C19_FormBlockProofs.
+
+Lemma gen_form_block_is_model {V W R} (vzero : V -> V) (form : list V -> list V -> W -> R) M i j u v w :
+  gen_form_block vzero form M [i; j] u v w = form_block V W R vzero form M i j u v w.
+Proof.
+  unfold gen_form_block, form_block, block_pad. cbn [flat_map seq nth].
+  destruct (flat_args_split (fun j0 => if i =? j0 then u else vzero u) (fun j0 => if j =? j0 then v else vzero v) M) as [E1 E2].
+  now rewrite E1, E2.
+Qed.
+
+Section Transport5.
+  Variable R : Type.
+  Variables (rO rI : R) (radd rmul rsub : R -> R -> R) (ropp : R -> R).
+  Variable Rth : ring_theory rO rI radd rmul rsub ropp (@eq R).
+  Variables V W : Type.
+  Variables (vadd : V -> V -> V) (vscale : R -> V -> V) (vaddC : list V -> list V -> list V) (vscaleC : R -> list V -> list V).
+  Variable vzero : V -> V.
+  Variable M : nat.
+  Notation inj := (block_pad V vzero M).
+
+  (* assembling the wrapper form.block(bt, a) on the component bases (b_bt, b_a) gives the (a, bt) block of the coupling
+     matrix assembled on the CompositeBasis (tuples of M fields; slot n of the tuple = block_pad M n) *)
+  Theorem gen_form_block_assembly (b0 : basis R V) (rest : list (basis R V)) (form : list V -> list V -> W -> R)
+      (a bt : nat) (w : nat -> nat -> W) (uC vC ub va : nat -> R) :
+    let bs := b0 :: rest in
+    (forall n, n < length bs -> wf_basis (nth n bs b0) /\ bnelems (nth n bs b0) = bnelems b0 /\ bnq (nth n bs b0) = bnq b0) ->
+    (forall x y v w, form (vaddC x y) v w = radd (form x v w) (form y v w)) ->
+    (forall s x v w, form (vscaleC s x) v w = rmul s (form x v w)) ->
+    (forall u x y w, form u (vaddC x y) w = radd (form u x w) (form u y w)) ->
+    (forall s u x w, form u (vscaleC s x) w = rmul s (form u x w)) ->
+    (forall n x y, inj n (vadd x y) = vaddC (inj n x) (inj n y)) ->
+    (forall n s x, inj n (vscale s x) = vscaleC s (inj n x)) ->
+    a < length bs -> bt < length bs ->
+    (forall e q, e < bnelems b0 -> q < bnq b0 -> bdx (nth bt bs b0) e q = bdx b0 e q) ->
+    cb_supported R rO V b0 rest uC bt ub -> cb_supported R rO V b0 rest vC a va ->
+    exists C cC AC cab Aab,
+      gen_composite_basis R V (list V) inj b0 rest false = Some C /\
+      gen_bilinear_assemble R rO radd rmul (list V) W form w C None = Some cC /\ gen_to_dense2 R rO radd cC = Some AC /\
+      gen_bilinear_assemble R rO radd rmul V W (gen_form_block vzero form M [bt; a]) w (nth bt bs b0) (Some (nth a bs b0)) = Some cab /\
+      gen_to_dense2 R rO radd cab = Some Aab /\
+      vAu R rO radd rmul vC AC uC (bN C) (bN C) = vAu R rO radd rmul va Aab ub (bN (nth a bs b0)) (bN (nth bt bs b0)).
+  Proof.
+    intros bs Hwf F1 F2 F3 F4 I1 I2 Ha Hbt Hdx Hsu Hsv.
+    destruct (gen_compositebasis_block_assembly R rO rI radd rmul rsub ropp Rth V (list V) W vadd vscale vaddC vscaleC inj b0 rest form
+                a bt w uC vC ub va Hwf F1 F2 F3 F4 I1 I2 Ha Hbt Hdx Hsu Hsv) as [C [cC [AC [cab [Aab [E0 [_ [E1 [E2 [E3 [E4 E5]]]]]]]]]]].
+    exists C, cC, AC, cab, Aab. repeat (split; [assumption|]). split; [|split; assumption].
+    rewrite <- E3. rewrite !gen_bilinear_is_model. apply bilinear_assemble_form_ext.
+    intros x y p. apply gen_form_block_is_model.
+  Qed.
+End Transport5.
+
+(* ---------- shared DOFs, permutation to the ElementComposite numbering, facet scatter ---------- *)
+Require Import Proofs.C19_PermProofs Model.C19_Scatter Proofs.C19_ScatterProofs.
+
+Section Transport6.
+  Variable R : Type.
+  Variables (rO rI : R) (radd rmul rsub : R -> R -> R) (ropp : R -> R).
+  Variable Rth : ring_theory rO rI radd rmul rsub ropp (@eq R).
+  Variables V VC W : Type.
+  Variables (vadd : V -> V -> V) (vscale : R -> V -> V) (vaddC : VC -> VC -> VC) (vscaleC : R -> VC -> VC).
+  Variable inj : nat -> V -> VC.
+  Variable form : VC -> VC -> W -> R.
+  Hypothesis F1 : forall x y v w, form (vaddC x y) v w = radd (form x v w) (form y v w).
+  Hypothesis F2 : forall s x v w, form (vscaleC s x) v w = rmul s (form x v w).
+  Hypothesis F3 : forall u x y w, form u (vaddC x y) w = radd (form u x w) (form u y w).
+  Hypothesis F4 : forall s u x w, form u (vscaleC s x) w = rmul s (form u x w).
+  Hypothesis I1 : forall n x y, inj n (vadd x y) = vaddC (inj n x) (inj n y).
+  Hypothesis I2 : forall n s x, inj n (vscale s x) = vscaleC s (inj n x).
+
+  Theorem gen_shared_dofs_matrix_is_sum (b0 : basis R V) (rest : list (basis R V)) (w : nat -> nat -> W) (u v : nat -> R) :
+    let bs := b0 :: rest in
+    (forall n, n < length bs -> wf_basis (nth n bs b0) /\ bnelems (nth n bs b0) = bnelems b0 /\ bnq (nth n bs b0) = bnq b0) ->
+    (forall n, n < length bs -> bN (nth n bs b0) = bN b0) ->
+    exists C cC AC,
+      gen_composite_basis R V VC inj b0 rest true = Some C /\ bN C = bN b0 /\
+      gen_bilinear_assemble R rO radd rmul VC W form w C None = Some cC /\ gen_to_dense2 R rO radd cC = Some AC /\
+      vAu R rO radd rmul v AC u (bN C) (bN C)
+      = sumn rO radd (length bs) (fun a => sumn rO radd (length bs) (fun b =>
+          integrate R rO radd rmul (bnelems b0) (bnq b0)
+            (fun e q => form (inj b (interp R rO V vadd vscale (nth b bs b0) u e q)) (inj a (interp R rO V vadd vscale (nth a bs b0) v e q)) (w e q))
+            (bdx b0))).
+  Proof.
+    intros bs Hwf HN.
+    destruct (shared_dofs_matrix_is_sum R rO rI radd rmul rsub ropp Rth V VC W vadd vscale vaddC vscaleC inj b0 rest Hwf form F1 F2 F3 F4 I1 I2 w u v HN)
+      as [C [cC [AC H]]].
+    exists C, cC, AC. rewrite gen_composite_basis_is_model, gen_bilinear_is_model, gen_to_dense2_is_model. exact H.
+  Qed.
+
+  Theorem gen_compositebasis_is_permuted_elementcomposite tp ref ls (CE : basis R VC) (b : nat -> basis R V) (b0 : basis R V) (rest : list (basis R V))
+      (w : nat -> nat -> W) (uE vE uB vB : nat -> R) :
+    let bs := b0 :: rest in
+    composite_setting R V VC inj tp ref ls CE b ->
+    (length bs = length ls /\ forall n, n < length bs -> nth n bs b0 = b n) ->
+    (forall n, n < length bs -> wf_basis (nth n bs b0) /\ bnelems (nth n bs b0) = bnelems b0 /\ bnq (nth n bs b0) = bnq b0) ->
+    (wf_basis CE /\ bnelems CE = bnelems b0 /\ bnq CE = bnq b0 /\ ncells tp = bnelems b0 /\
+     (forall e q, e < bnelems b0 -> q < bnq b0 -> bdx CE e q = bdx b0 e q)) ->
+    (forall n k, n < length bs -> k < bN (nth n bs b0) -> uE (nth k (gen_composite_split tp ls n) 0) = uB (psum (fun m => bN (nth m bs b0)) n + k)) ->
+    (forall n k, n < length bs -> k < bN (nth n bs b0) -> vE (nth k (gen_composite_split tp ls n) 0) = vB (psum (fun m => bN (nth m bs b0)) n + k)) ->
+    exists CB cE AE cB AB,
+      gen_composite_basis R V VC inj b0 rest false = Some CB /\
+      gen_bilinear_assemble R rO radd rmul VC W form w CE None = Some cE /\ gen_to_dense2 R rO radd cE = Some AE /\
+      gen_bilinear_assemble R rO radd rmul VC W form w CB None = Some cB /\ gen_to_dense2 R rO radd cB = Some AB /\
+      vAu R rO radd rmul vE AE uE (bN CE) (bN CE) = vAu R rO radd rmul vB AB uB (bN CB) (bN CB).
+  Proof.
+    intros bs [Href [Hconn [HC [Hb HB]]]] Hlist Hwf HCE Hpu Hpv.
+    destruct (compositebasis_is_permuted_elementcomposite R rO rI radd rmul rsub ropp Rth V VC W vaddC vscaleC inj tp ref ls
+                Href Hconn CE b HC Hb HB b0 rest Hlist Hwf HCE form F1 F2 F3 F4 w uE vE uB vB Hpu Hpv) as [CB [cE [AE [cB [AB H]]]]].
+    exists CB, cE, AE, cB, AB. rewrite gen_composite_basis_is_model, !gen_bilinear_is_model, !gen_to_dense2_is_model. exact H.
+  Qed.
+End Transport6.
+
+(* tolocal(basis=facet basis): listed facets carry their local matrix (distinct facets), the last assignment stays for a repeated
+   facet, unlisted facets contribute zero, and cell e sums the entries of its facets t2f[.][e] *)
+Theorem gen_facet_scatter_spec (R : Type) (zero : list (list R)) (add : list (list R) -> list (list R) -> list (list R)) :
+  (forall idx vals out k d, NoDup idx -> length vals = length idx -> (forall i, In i idx -> i < length out) -> k < length idx ->
+     nth (nth k idx 0) (gen_scatter_set R idx vals out) d = nth k vals d) /\
+  (forall idx vals i v out d, length vals = length idx -> i < length out ->
+     nth i (gen_scatter_set R (idx ++ [i]) (vals ++ [v]) out) d = v) /\
+  (forall idx vals f d out, ~ In f idx -> nth f (gen_scatter_set R idx vals out) d = nth f out d) /\
+  (forall nfacets ncells find local t2f e d, e < ncells ->
+     nth e (gen_facet_sum R zero add nfacets ncells find local t2f) d
+     = fold_right add zero (map (fun row => nth (nth e row 0) (gen_scatter_set R find local (repeat zero nfacets)) zero) t2f)).
+Proof.
+  repeat split; intros.
+  - now apply scatter_nth.
+  - now apply scatter_last_wins.
+  - now apply scatter_other.
+  - now apply facet_sum_spec.
+Qed.
